@@ -550,7 +550,11 @@ func (b BindlistInstr) Execute(env *Zlisp) error {
 	}
 
 	for i, bindThisSym := range b.syms {
-		env.LexicalBindSymbol(bindThisSym, arr[i])
+		// e.g. a string for a variable that holds an int64: refused
+		// by def, so by mdef too.
+		if err := env.LexicalBindSymbol(bindThisSym, arr[i]); err != nil {
+			return err
+		}
 	}
 	env.pc++
 	return nil
